@@ -407,7 +407,7 @@ fn o9_4_client_disconnect_budget() { budget_step(true); }
 
 // ---- the real step(): frames waiting in the socket are read before the timers are evaluated (C10) -------
 
-//@h props=C10,C08 tier=quick timeout=900 role=client-real-step
+//@h props=C10,C08 tier=quick timeout=900 role=client-real-step cbmc=--max-field-sensitivity-array-size+2048
 //@fn Client::{step, flush_if_active, handle_frames, handle_frame, handle_sync, handle_events, step_if_active}, Frame::read
 //@bound Active client (deadline any, config any valid with active_timeout_ms >= 1); ONE sync frame (14 bytes, no ids) waiting in the socket; clock reading any < 2^40 -- in particular at or past the deadline; one call of the real step()
 //@assume clock behind now_ms() = a value set by the obligation; socket model with one queued datagram; opaque connection model; crc::compute stubbed
